@@ -119,8 +119,52 @@ class CallMixin:
             res = cands[0]
         elif len(cands) > 1:
             raise Unsupported("ambiguous callee %s: %s" % (name, [c.qual for c in cands]))
+        if res is None:
+            res = self.implicit_inline(name, cls)
         self._resolve_cache[key] = res
         return res
+
+    def implicit_inline(self, name, cls):
+        """A small loop-free helper without a contract (typically the product of an extract-method refactoring) is read through its body:
+        an implicit transparent contract, listed among the assumptions-free inlined callees in the evidence."""
+        rel = self.class_home.get(cls) if cls is not None else self.cur_rel
+        if rel is None or rel.startswith("verif/") or ":" in rel:
+            return None
+        qual = "%s:%s" % (rel, (cls + "." + name) if cls is not None else name)
+        try:
+            fdef, _, _ = front.find_def(qual)
+        except Exception:
+            return None
+        if any(isinstance(n, (ast.For, ast.While, ast.Try, ast.With, ast.Yield, ast.Lambda, ast.ListComp, ast.FunctionDef)) and n is not fdef
+               for n in ast.walk(fdef)):
+            return None
+        if sum(1 for n in ast.walk(fdef) if isinstance(n, ast.stmt)) > 14:
+            return None
+        # direct recursion would not terminate in the inliner
+        if any(isinstance(n, ast.Call) and ((isinstance(n.func, ast.Name) and n.func.id == name) or
+                                             (isinstance(n.func, ast.Attribute) and n.func.attr == name)) for n in ast.walk(fdef)):
+            return None
+        mods = sorted({"self." + n.attr for n in ast.walk(fdef)
+                       if isinstance(n, ast.Attribute) and isinstance(n.value, ast.Name) and n.value.id == "self"
+                       and isinstance(n.ctx, (ast.Store, ast.Del))})
+        # in-place mutation through self (self.x.append(..), self.x[k] = ..) also counts
+        for n in ast.walk(fdef):
+            tgt = None
+            if isinstance(n, ast.Subscript) and isinstance(n.ctx, (ast.Store, ast.Del)):
+                tgt = n.value
+            if isinstance(n, ast.Call) and isinstance(n.func, ast.Attribute) and n.func.attr in (
+                    "append", "add", "update", "extend", "pop", "remove", "clear", "insert", "setdefault", "inc", "discard"):
+                tgt = n.func.value
+            while isinstance(tgt, (ast.Subscript, ast.Attribute)) and not (isinstance(tgt, ast.Attribute) and isinstance(tgt.value, ast.Name)):
+                tgt = tgt.value
+            if isinstance(tgt, ast.Attribute) and isinstance(tgt.value, ast.Name) and tgt.value.id == "self" and "self." + tgt.attr not in mods:
+                mods.append("self." + tgt.attr)
+        c = api.Contract(qual, {a.arg: None for a in fdef.args.args}, transparent=True, native=False, props=[], ensures=[], modifies=mods)
+        c.implicit = True
+        api.REG[qual] = c
+        self.implicit_inlined.add(qual)
+        self.assumptions.add("%s has no contract of its own: read through its body (loop-free helper, inlined at every call)" % qual)
+        return c
 
     def bases_of(self, cls):
         rel = self.class_home.get(cls)
